@@ -16,7 +16,7 @@ RULE = ('1-5 of 11 volatile chemicals, compositions incl. zeros and traces (1e-1
         'k in {0.5, 2, 1e-3, 1e3}, every permutation for n<=4; clauses: residual of the bubble / dew equation at the returned point, normalised y / x, solve_T(solve_P(T)) = T, T_bubble <= T_dew and '
         'P_dew <= P_bubble, single component = Tsat/Psat, permutation, scale. non-trivial = >=2 components above 1e-6 and a converged residual evaluated; distinct = hash of the case')
 MIN_NONTRIVIAL = {'quick': 300, 'thorough': 8000}
-ASSUMPTIONS = ['residuals are recomputed from the solver object\'s own gamma/phi/pcf/Psat members', 'input classes: "family" = all members from one homologous family or ideal package; "cross-family" = non-ideal package with members of different families']
+ASSUMPTIONS = ['residuals are recomputed from the solver object\'s own gamma/phi/pcf/Psat members', 'dew-side permutation tolerance is 1e-4 K / 1e-6 relative in P (the inner dew iteration is not converged tighter than that); input classes: "family" = all members from one homologous family or ideal package; "cross-family" = non-ideal package with members of different families']
 FAMILIES = {'alcohol': ('Methanol', 'Ethanol', 'Propanol', 'Butanol'), 'alkane-aromatic': ('Hexane', 'Heptane', 'Octane', 'Benzene', 'Toluene'), 'other': ('Water', 'Acetone')}
 ALL = tuple(i for f in FAMILIES.values() for i in f)
 
@@ -91,6 +91,28 @@ def dew_residual(dp, z, T, P, x):
     return 1.0 - float(xi[m].sum()), xi
 
 
+def dew_status(dp, z, T, P, x, method):
+    """'ok' | 'unconverged' (the solver's own error function is not at a root at the returned point: an iterate returned
+    silently because the iteration runs with checkiter=False) | 'wrong' (the solver believes it converged but the dew equation does not hold)"""
+    try:
+        res, _ = dew_residual(dp, z, T, P, np.asarray(x, float))
+    except Exception:
+        return 'unconverged', float('nan')
+    if abs(res) <= 1e-6 and (np.asarray(x) >= 0).all(): return 'ok', res
+    zn = z / z.sum()
+    try:
+        xx = np.asarray(x, float).copy()
+        if method == 'solve_Tx': own = dp._T_error(T, P, zn, zn * P, xx)
+        else:
+            Psats = np.array([p(T) for p in dp.Psats], float)
+            own = dp._P_error(P, T, zn, zn / Psats, Psats, xx)
+        inner = float(np.abs(xx / max(xx.sum(), 1e-300) - np.asarray(x, float)).max())
+    except Exception:
+        return 'unconverged', res
+    if abs(own) > 1e-7 or inner > 1e-7 or not np.isfinite(own): return 'unconverged', res
+    return 'wrong', res
+
+
 def run_case(case, rec):
     rec.begin_case(case)
     ids = case['ids']; z = np.array(case['z'], float); T0 = case['T']; P0 = case['P']
@@ -115,7 +137,7 @@ def run_case(case, rec):
             nm = type(e).__name__
             if nm in ('InfeasibleRegion', 'DomainError', 'NoEquilibrium'):
                 rec.refuse(f'{name}: {nm}'); return None
-            rec.exception(name.split(':')[0] + '/' + cls, e, what=f'{name} ({cls}, n={npos}) raised {nm}: {str(e)[:120]}'); return None
+            rec.exception(name.split(':')[0], e, what=f'{name} ({cls}, n={npos}) raised {nm}: {str(e)[:120]}'); return None
     Pb = call('bubble-residual:solve_Py', lambda: bp.solve_Py(z.copy(), T0))
     Tb = call('bubble-residual:solve_Ty', lambda: bp.solve_Ty(z.copy(), P0))
     Pd = call('dew-residual:solve_Px', lambda: dp.solve_Px(z.copy(), T0))
@@ -145,30 +167,41 @@ def run_case(case, rec):
             rec.check(abs(res) <= 1e-6, 'bubble-residual', f'solve_Ty/{cls}', f'bubble temperature {T!r} at P={P0}: 1 - sum(y) recomputed = {res!r} (z={z.tolist()}, ids={ids})', residual=abs(res))
         else: rec.refuse('bubble temperature at the edge of the vapour-pressure domain (not judged)')
         rec.check(abs(y.sum() - 1) <= 1e-12 and (y >= 0).all(), 'normalised', 'solve_Ty', f'returned y {y.tolist()} sums to {y.sum()!r}')
-    if Pd is not None:
-        P, x = Pd; x = np.asarray(x, float)
-        res, _ = dew_residual(dp, z, T0, P, x)
-        rec.check(abs(res) <= 1e-6, 'dew-residual', f'solve_Px/{cls}', f'dew pressure {P!r} at T={T0}: 1 - sum(x) recomputed = {res!r} (z={z.tolist()}, ids={ids}, x={x.tolist()})', residual=abs(res))
-        rec.check(abs(x.sum() - 1) <= 1e-12 and (x >= 0).all(), 'normalised', f'solve_Px/{cls}', f'returned x {x.tolist()} sums to {x.sum()!r}')
-    if Td is not None:
-        T, x = Td; x = np.asarray(x, float)
-        if Tlo < T < Thi:
-            res, _ = dew_residual(dp, z, T, P0, x)
-            rec.check(abs(res) <= 1e-6, 'dew-residual', f'solve_Tx/{cls}', f'dew temperature {T!r} at P={P0}: 1 - sum(x) recomputed = {res!r} (z={z.tolist()}, ids={ids}, x={x.tolist()})', residual=abs(res))
-        else: rec.refuse('dew temperature at the edge of the vapour-pressure domain (not judged)')
-        rec.check(abs(x.sum() - 1) <= 1e-12 and (x >= 0).all(), 'normalised', f'solve_Tx/{cls}', f'returned x {x.tolist()} sums to {x.sum()!r}')
+    dew_bad = {}
+    for mname, r, TT, PP in (('solve_Px', Pd, T0, None), ('solve_Tx', Td, None, P0)):
+        if r is None: continue
+        val, x = r; x = np.asarray(x, float)
+        T_, P_ = (TT, val) if mname == 'solve_Px' else (val, PP)
+        if mname == 'solve_Tx' and not (Tlo < T_ < Thi):
+            rec.refuse('dew temperature at the edge of the vapour-pressure domain (not judged)'); dew_bad[mname] = 'edge'; continue
+        st, res = dew_status(dp, z, T_, P_, x, mname)
+        dew_bad[mname] = st
+        if st == 'ok':
+            rec.ok('dew-residual', abs(res))
+            rec.check(abs(x.sum() - 1) <= 1e-12, 'normalised', mname, f'returned x {x.tolist()} sums to {x.sum()!r}')
+        else:
+            rec.violation(f'C08/dew-residual/{mname}/{"unconverged-iterate" if st == "unconverged" else "converged-but-wrong"}',
+                          f'{mname}: returned {"P" if mname == "solve_Px" else "T"}={val!r} at {"T=%s" % T0 if mname == "solve_Px" else "P=%s" % P0}: the dew equation gives 1 - sum(x) = {res!r}, x={x.tolist()} '
+                          f'(z={z.tolist()}, ids={ids}, class={cls}); status: {st}')
+    def dew_sfx(*methods):
+        return '/dew-unconverged' if any(dew_bad.get(m) == 'unconverged' for m in methods) else ''
     # ---- inverse relation
     if Pb is not None:
         r = call('inverse:solve_Ty(solve_Py)', lambda: bp.solve_Ty(z.copy(), Pb[0]))
         if r is not None and Tlo + 1 < T0 < Thi - 1: rec.check(abs(r[0] - T0) <= 1e-4, 'inverse', f'bubble/{cls}', f'solve_Ty(z, solve_Py(z,{T0}).P={Pb[0]!r}).T = {r[0]!r}', residual=abs(r[0] - T0))
     if Pd is not None:
         r = call('inverse:solve_Tx(solve_Px)', lambda: dp.solve_Tx(z.copy(), Pd[0]))
-        if r is not None and Tlo + 1 < T0 < Thi - 1: rec.check(abs(r[0] - T0) <= 1e-4, 'inverse', f'dew/{cls}', f'solve_Tx(z, solve_Px(z,{T0}).P={Pd[0]!r}).T = {r[0]!r}', residual=abs(r[0] - T0))
+        if r is not None and Tlo + 1 < T0 < Thi - 1:
+            st2, _ = dew_status(dp, z, r[0], Pd[0], r[1], 'solve_Tx') if Tlo < r[0] < Thi else ('unconverged', 0)
+            sfx = '/dew-unconverged' if (dew_bad.get('solve_Px') == 'unconverged' or st2 == 'unconverged') else ''
+            if not sfx and abs(r[0] - T0) > 1e-4 and dew_bad.get('solve_Px') == 'ok' and st2 == 'ok':
+                sfx = '/multiple-roots'     # both points satisfy the dew equation at this pressure: two incipient liquids (partially miscible mixture)
+            rec.check(abs(r[0] - T0) <= 1e-4, 'inverse', f'dew{sfx}', f'solve_Tx(z, solve_Px(z,{T0}).P={Pd[0]!r}).T = {r[0]!r}', residual=abs(r[0] - T0))
     # ---- bracketing
     if Pb is not None and Pd is not None:
-        rec.check(Pd[0] <= Pb[0] + 1e-3, 'bracket', f'P/{cls}', f'dew pressure {Pd[0]!r} exceeds bubble pressure {Pb[0]!r} at T={T0} (z={z.tolist()}, ids={ids})')
+        rec.check(Pd[0] <= Pb[0] + 1e-3, 'bracket', 'P' + (dew_sfx('solve_Px') or ('/multiple-roots' if cls == 'cross-family' and dew_bad.get('solve_Px') == 'ok' else '')), f'dew pressure {Pd[0]!r} exceeds bubble pressure {Pb[0]!r} at T={T0} (z={z.tolist()}, ids={ids})')
     if Tb is not None and Td is not None and Tlo < Tb[0] < Thi and Tlo < Td[0] < Thi:
-        rec.check(Tb[0] <= Td[0] + 1e-6, 'bracket', f'T/{cls}', f'bubble temperature {Tb[0]!r} exceeds dew temperature {Td[0]!r} at P={P0} (z={z.tolist()}, ids={ids})')
+        rec.check(Tb[0] <= Td[0] + 1e-6, 'bracket', 'T' + (dew_sfx('solve_Tx') or ('/multiple-roots' if cls == 'cross-family' and dew_bad.get('solve_Tx') == 'ok' else '')), f'bubble temperature {Tb[0]!r} exceeds dew temperature {Td[0]!r} at P={P0} (z={z.tolist()}, ids={ids})')
     # ---- permutation of the chemical list (fresh solver per permutation)
     n = len(ids)
     if n <= 4: perms = list(itertools.permutations(range(n)))[1:]
@@ -185,16 +218,18 @@ def run_case(case, rec):
             zp = z[list(p)]
             if Pb is not None:
                 r = bpp.solve_Py(zp.copy(), T0)
-                rec.check(abs(r[0] - Pb[0]) <= 1e-9 * Pb[0] and np.allclose(r[1], np.asarray(Pb[1])[list(p)], rtol=1e-8, atol=1e-14), 'permutation', f'bubble-P/{cls}', f'bubble pressure depends on the order of the chemicals: {Pb[0]!r} vs {r[0]!r} for order {pid}')
+                rec.check(abs(r[0] - Pb[0]) <= 1e-9 * Pb[0] + 1e-2 and np.allclose(r[1], np.asarray(Pb[1])[list(p)], rtol=1e-8, atol=1e-14), 'permutation', f'bubble-P/{cls}', f'bubble pressure depends on the order of the chemicals: {Pb[0]!r} vs {r[0]!r} for order {pid}')
             if Tb is not None and Tlo < Tb[0] < Thi:
                 r = bpp.solve_Ty(zp.copy(), P0)
                 rec.check(abs(r[0] - Tb[0]) <= 1e-9 * Tb[0] + 1e-8, 'permutation', f'bubble-T/{cls}', f'bubble temperature depends on the order of the chemicals: {Tb[0]!r} vs {r[0]!r} for order {pid}')
             if Pd is not None:
                 r = dpp.solve_Px(zp.copy(), T0)
-                rec.check(abs(r[0] - Pd[0]) <= 1e-8 * Pd[0], 'permutation', f'dew-P/{cls}', f'dew pressure depends on the order of the chemicals: {Pd[0]!r} vs {r[0]!r} for order {pid}')
+                stp, _ = dew_status(dpp, zp, T0, r[0], r[1], 'solve_Px')
+                rec.check(abs(r[0] - Pd[0]) <= 1e-6 * Pd[0] + 1e-2, 'permutation', 'dew-P' + ('/dew-unconverged' if (stp == 'unconverged' or dew_bad.get('solve_Px') == 'unconverged') else ''), f'dew pressure depends on the order of the chemicals: {Pd[0]!r} vs {r[0]!r} for order {pid}')
             if Td is not None and Tlo < Td[0] < Thi:
                 r = dpp.solve_Tx(zp.copy(), P0)
-                rec.check(abs(r[0] - Td[0]) <= 1e-8 * Td[0] + 1e-7, 'permutation', f'dew-T/{cls}', f'dew temperature depends on the order of the chemicals: {Td[0]!r} vs {r[0]!r} for order {pid}')
+                stp, _ = dew_status(dpp, zp, r[0], P0, r[1], 'solve_Tx') if Tlo < r[0] < Thi else ('unconverged', 0)
+                rec.check(abs(r[0] - Td[0]) <= 1e-4, 'permutation', 'dew-T' + ('/dew-unconverged' if (stp == 'unconverged' or dew_bad.get('solve_Tx') == 'unconverged') else ''), f'dew temperature depends on the order of the chemicals: {Td[0]!r} vs {r[0]!r} for order {pid}')
         except Exception as e:
             if type(e).__name__ in ('InfeasibleRegion', 'DomainError'): rec.refuse('permuted call refused'); continue
             rec.exception('permutation', e, what=f'solver on the permuted list {pid} raised {type(e).__name__}: {str(e)[:100]}'); break
@@ -206,7 +241,13 @@ def run_case(case, rec):
             a = obj(z.copy(), **kw); b = obj(k * z, **kw)
             va, vb = (a.P, b.P) if 'T' in kw else (a.T, b.T)
             if 'P' in kw and not (Tlo < va < Thi): continue
-            rec.check(abs(va - vb) <= 1e-7 * abs(va), 'scale', f'call/{name}/{cls}', f'{name}: z gives {va!r} but {k}*z gives {vb!r}', detail={'z': z.tolist(), 'k': k, 'ids': ids})
+            sfx = ''
+            if name.startswith('Dew'):
+                m_ = 'solve_Px' if 'T' in kw else 'solve_Tx'
+                sa = dew_status(dp, z, T0 if 'T' in kw else a.T, a.P if 'T' in kw else P0, a.x, m_)[0]
+                sb = dew_status(dp, z, T0 if 'T' in kw else b.T, b.P if 'T' in kw else P0, b.x, m_)[0] if ('T' in kw or Tlo < b.T < Thi) else 'unconverged'
+                if 'unconverged' in (sa, sb): sfx = '/dew-unconverged'
+            rec.check(abs(va - vb) <= 1e-7 * abs(va), 'scale', f'call/{name}{sfx}', f'{name}: z gives {va!r} but {k}*z gives {vb!r}', detail={'z': z.tolist(), 'k': k, 'ids': ids})
         except Exception as e:
             if type(e).__name__ in ('InfeasibleRegion', 'DomainError'): rec.refuse('scaled call refused'); continue
             rec.exception('scale', e, what=f'{name} with k*z raised {type(e).__name__}: {str(e)[:100]}')
